@@ -71,6 +71,43 @@ def spice(tree, rng):
     return go(tree)
 
 
+def default_twins(tree, u, rng):
+    """a float property whose declared default is 0.0 gets, now and then, the value -0.0 (== to the default, not the same
+    value): a writer that leaves out "default" values must not confuse them (seeded change C04-8)"""
+    dflt = {}
+    for c in u.classes:
+        for f in u.merged(c.name):
+            if f.role == "Prop" and f.init and f.ptype == "float" and f.has_default and f.default is not None \
+                    and f.default.name == "VFloat" and f.default.args[0] in (b"0.0", "0.0"):
+                dflt[(c.name, f.name)] = Con("VFloat", "-0.0")
+    if not dflt:
+        return tree
+    memo = {}
+
+    def go(t):
+        a = t.args[0]
+        if a not in memo:
+            cn = t.args[1].decode()
+            ps = [Con("P", p.args[0], dflt[(cn, p.args[0].decode())]) if (cn, p.args[0].decode()) in dflt and rng.random() < 0.6 else p
+                  for p in t.args[3]]
+            ks = [Con("K", k.args[0], k.args[1], [go(c) for c in k.args[2]]) for k in t.args[4]]
+            memo[a] = Con("N", a, t.args[1], t.args[2], ps, ks)
+        return memo[a]
+
+    return go(tree)
+
+
+def with_zero_float(u, rng):
+    """every root class gets a keyword-only float property with the default 0.0 (see default_twins)"""
+    from ..lib.universe import FieldSpec, Universe
+
+    for c in u.classes:
+        if c.base is None and not any(f.name == "zf" for f in c.own):
+            c.own.append(FieldSpec("zf", "Prop", compare=rng.random() < 0.8, init=True, kw_only=True, ptype="float",
+                                   default=Con("VFloat", "0.0"), has_default=True))
+    return Universe(u.classes, u.enum_name, u.future, u.uid)
+
+
 def init_false_fields(u):
     return {(c.name, f.name) for c in u.classes for f in u.merged(c.name) if f.role == "Prop" and not f.init}
 
@@ -79,7 +116,7 @@ def gen_cases(rng, tier):
     cases = []
     n_uni = 5 if tier == "quick" else 150
     for _ in range(n_uni):
-        u0 = make_universe(rng)
+        u0 = with_zero_float(make_universe(rng), rng)
         for _t in range(3 if tier == "quick" else 6):
             u = u0.clone(rng)
             uj = universe_to_json(u)
@@ -88,6 +125,7 @@ def gen_cases(rng, tier):
             nif = init_false_fields(u)
             # init=False properties keep their declared default: only spice values the constructor accepts
             tree = spice(tree, rng)
+            tree = default_twins(tree, u, rng)
             tree = restore_non_init(tree, u, nif)
             addrs = [n.args[0] for n in iter_nodes(tree)]
             root = tree.args[0]
